@@ -29,13 +29,27 @@ Canon == /\ lastop'[1] # "view"      \* contents are compared after every step a
          /\ regs'[2].alive => (regs[1].alive \/ regs[2].alive)
          /\ (lastop'[1] = "ctor" /\ lastop'[2] = 2) => (lastop'[3] = "from_slice_into_readonly_locked" /\ lastop'[4] = "Resizable" /\ lastop'[5] = 4097)
 \* composite constructors matter where locks can be refused; elsewhere one representative keeps the graph small
+\* decoders matter where locks can be refused, as the first or second operation
+DeserFocus == (lastop'[1] = "deserialize") => (Focus = "refuse" /\ nops <= 1 /\ (nops = 1 => (lastop[1] = "ctor" /\ lastop[3] \in {"new_locked", "from_slice_into_readonly_locked"})))
+\* what follows a decoder call is a probe of the aftermath only (another decoder, or a fresh locked array)
+AfterDeser == (lastop[1] = "deserialize") => (lastop'[1] = "deserialize" \/ (lastop'[1] = "ctor" /\ lastop'[3] = "new_locked" /\ lastop'[4] = "Fixed"))
 CompFocus == (lastop'[1] = "composite") => ((Focus = "refuse" /\ nops <= 1 /\ (nops = 1 => lastop[1] # "composite")) \/ (Focus = "all" /\ lastop'[3] = "KeyPair::gen_locked_keypair" /\ nops = 0))
 WipeFocus == Focus = "wipe" =>
   /\ lastop'[1] \in {"ctor", "resize", "clone", "drop", "fill", "munlock", "heap_mlock"}
   /\ lastop'[1] = "ctor" => (lastop'[3] \in {"heap", "from_slice_into_locked"} /\ lastop'[5] \in {16, 4097})
   /\ lastop'[1] = "resize" => lastop'[3] \in {1, 64, 4096, 8193}
+\* blocks of 16 pages and more (allocators treat large blocks differently): resizable containers only
+WipeLargeFocus == Focus = "wipe_large" =>
+  /\ lastop'[1] \in {"ctor", "resize", "clone", "drop", "fill", "munlock", "heap_mlock"}
+  /\ lastop'[1] = "ctor" => (lastop'[3] \in {"heap", "from_slice_into_locked"} /\ lastop'[4] = "Resizable" /\ lastop'[5] \in {65536, 100000})
+  /\ lastop'[1] = "resize" => lastop'[3] \in {16, 65536, 70000, 131072}
 RefuseFocus == Focus = "refuse" => (lastop'[1] = "ctor" => lastop'[5] \in {16, 4097})
-GNext == Next /\ Canon /\ WipeFocus /\ RefuseFocus /\ CompFocus /\ log' = Append(log, [op |-> lastop', res |-> res', obs |-> Obs'])
+\* lock requests the KERNEL refuses (a no-access region cannot be faulted in): one handle, lock-related operations only, deeper
+NaFocus == Focus = "refuse_na" =>
+  /\ lastop'[1] \in {"ctor", "munlock", "mprotect", "mlock", "heap_mlock", "drop"}
+  /\ lastop'[2] = 1
+  /\ (lastop'[1] = "ctor" => (lastop'[3] \in {"new_locked", "heap", "from_slice_into_readonly_locked"} /\ lastop'[5] \in {16, 4097}))
+GNext == Next /\ NaFocus /\ WipeLargeFocus /\ Canon /\ WipeFocus /\ RefuseFocus /\ CompFocus /\ DeserFocus /\ AfterDeser /\ log' = Append(log, [op |-> lastop', res |-> res', obs |-> Obs'])
 GSpec == GInit /\ [][GNext]_gvars
 
 Emit == (nops = MaxOps) => PrintT(ToJson(log))
